@@ -46,7 +46,7 @@ _SRH_NOTE = ("Bounds: x86-64 ELF layouts of <= 4 blocks per section (code/data m
              "insert_at/replace_at/delete_at (+retarget_to_proxy) at every atom boundary, patch bodies from a fixed vocabulary "
              "assembled by the real mcasm; every atom length, gap, address, displacement and raw patch length is a z3 integer "
              "(no numeric bound; code atoms 1..15 bytes). Outside: alignment padding (C10), relayout by gtirb_layout when "
-             "sections would overlap, ARM64/PE layouts, scope-based registration (C07). Trusted: symx + shims (validated by "
+             "sections would overlap, scope-based registration (C07). C01, C02, C03, C05 and C06 run the same scenarios on an ARM64 ELF module as well (fixed instruction length 4; patches that have an ARM64 rendering), PE layouts in the thorough tier. Trusted: symx + shims (validated by "
              "concrete replay of a witness of every path with expensive_assertions on), z3, oracle/listing.py, capstone for "
              "instruction lengths inside patches, the assembler for patch bytes.")
 _SRH_TECH = "symbolic execution of the real RewritingContext.apply() pipeline (symx) + z3 LIA; differential against a listing model"
